@@ -81,6 +81,7 @@ class State:
         self.dbm.add(ZERO, "len", 0)
         self.dbm.add("len", ZERO, MAX_LEN)
         self.mlen_gen = 0
+        self.remdefs = {}  # symbol r -> Lin P, meaning r = max(0, len - P)
 
     def copy(self):
         s = State.__new__(State)
@@ -88,7 +89,25 @@ class State:
         s.pos = self.pos
         s.dbm = self.dbm.copy()
         s.mlen_gen = self.mlen_gen
+        s.remdefs = dict(self.remdefs)
         return s
+
+    def apply_remdefs(self):
+        """r = max(0, len - P): r >= k >= 1 implies len - P = r; r <= 0 implies len <= P"""
+        for r_, P in list(self.remdefs.items()):
+            if r_ not in self.dbm.symbols():
+                continue
+            lo = -self.dbm.get(ZERO, r_)
+            hi = self.dbm.get(r_, ZERO)
+            d = Lin.sym("len").sub(P)
+            if lo >= 1:
+                # len - P = r
+                e = d.sub(Lin.sym(r_))
+                self.dbm.assume_le(self.canon(e), 0)
+                self.dbm.assume_le(self.canon(e.neg()), 0)
+                self.dbm.assume_le(self.canon(P.sub(Lin.sym("len"))), -lo)
+            elif hi <= 0:
+                self.dbm.assume_le(self.canon(d), 0)
 
     @property
     def bottom(self):
@@ -107,6 +126,9 @@ class State:
             for _, e in lins_in(v):
                 s.update(e.syms())
         s.add("len")
+        for r_, P in self.remdefs.items():
+            if r_ in s:
+                s.update(P.syms())
         # companions R(P) = len - P of used symbols, and the symbols companions are about
         for x in list(self.dbm.symbols()):
             if x.startswith("R(") and x[2:-1] in s:
@@ -160,6 +182,8 @@ class State:
     def assume_le(self, e, k=0):
         ce = self.canon(e)
         self.dbm.assume_le(ce, k)
+        if self.remdefs and any(s_ in self.remdefs for s_, _ in ce.t):
+            self.apply_remdefs()
         # reflect facts about a companion back onto the pair it stands for
         for s_, c in ce.t:
             if s_.startswith("R("):
@@ -268,6 +292,7 @@ def join_states(s1, s2, point):
     res = State.__new__(State)
     res.env = {}
     res.mlen_gen = max(s1.mlen_gen, s2.mlen_gen)
+    res.remdefs = {k: v for k, v in s1.remdefs.items() if s2.remdefs.get(k) == v}
     # collect numeric components that differ
     comps = []  # (id, e1, e2)
     cells = sorted(set(s1.env) & set(s2.env), key=lambda c: (c[0], c[1]))
